@@ -154,6 +154,60 @@ func concurrentCase(idx int64, r *rand.Rand) {
 	rt.Distinct(fmt.Sprintf("conc|%+v|%d|%d|%d", spec, nG, rounds, seeds[0]))
 }
 
+// readWhileNotifying: an AIMD limit behind the windowed (and optionally the traced) wrapper; a listener that has just been
+// told a new value lets another goroutine read the estimate through the wrapper while the notification is still in
+// progress.  Whenever that read returns, it returns the value the listener was told (nothing else changes the limit).
+func readWhileNotifying(idx int64, r *rand.Rand) {
+	inner := limit.NewAIMDLimit("c16", 10+r.IntN(20), 0.9, 1+r.IntN(3), nil)
+	w, err := limit.NewWindowedLimit("w", 1e8, 1e8, 10, 0, inner, nil)
+	if err != nil {
+		panic(err)
+	}
+	var top core.Limit = w
+	wk := "windowed"
+	if r.IntN(2) == 0 {
+		top, wk = limit.NewTracedLimit(w, limit.NoopLimitLogger{}), "traced+windowed"
+	}
+	type obs struct{ told, read int }
+	var results []obs
+	var mu sync.Mutex
+	var wg sync.WaitGroup
+	top.NotifyOnChange(func(v int) {
+		wg.Add(1)
+		started := make(chan struct{})
+		go func() {
+			defer wg.Done()
+			close(started)
+			got := top.EstimatedLimit()
+			mu.Lock()
+			results = append(results, obs{v, got})
+			mu.Unlock()
+		}()
+		<-started
+		for i := 0; i < 200; i++ { // stay inside the notification for a while
+			runtime.Gosched()
+		}
+	})
+	now := int64(1e12)
+	for i := 0; i < 30; i++ {
+		_ = top.EstimatedLimit() // an ordinary read between the windows
+		now += 2e8
+		top.OnSample(now, 1000+r.Int64N(1e6), 11+r.IntN(30), r.IntN(4) == 0)
+		wg.Wait()
+	}
+	rt.Count("reads_through_the_wrapper_during_a_notification", int64(len(results)))
+	for _, o := range results {
+		if o.read != o.told {
+			rt.Violation("C16/aimd/"+wk+"/estimate-read-through-the-wrapper-after-the-notification-differs-from-the-notified-value", idx, rt.J{"told": o.told, "read_through_the_wrapper": o.read,
+				"delegate_estimate_now": inner.EstimatedLimit()})
+			return
+		}
+	}
+	if len(results) > 0 {
+		rt.Distinct(fmt.Sprintf("rwn|%s|%d|%d", wk, len(results), results[0].told))
+	}
+}
+
 // concurrentSets: several goroutines set one SettableLimit (bare or behind the wrappers) to distinct values; listeners
 // pause before recording.  At quiescence every listener holds the value EstimatedLimit reports: the explicit set that
 // was stored last is also the one delivered last.
@@ -228,6 +282,10 @@ func TestCheck(t *testing.T) {
 		rt.Case()
 		if idx%10 == 9 {
 			concurrentSets(idx, r)
+			return
+		}
+		if idx%20 == 3 {
+			readWhileNotifying(idx, r)
 			return
 		}
 		if idx%5 == 4 {
